@@ -520,6 +520,18 @@ def _sym_init(fn: ast.FunctionDef, params: dict[str, str], base_init=None) -> di
     return attrs
 
 
+def resolve_method_name(raw: ast.ClassDef) -> str:
+    """The method of RawFileSystem that decides containment: the one that raises RootEscapeError (whatever it is called;
+    `_resolve_path` today).  With several such methods `_resolve_path` is taken if it is one of them."""
+    names = [f.name for f in raw.body if isinstance(f, ast.FunctionDef) and f.name != '__init__'
+             and any(_is_raise_escape(x) for x in ast.walk(f) if isinstance(x, ast.stmt))]
+    if '_resolve_path' in names or not names:
+        return '_resolve_path'
+    if len(names) == 1:
+        return names[0]
+    raise TranslateError(f'filesys.py: several methods of RawFileSystem raise RootEscapeError: {names}')
+
+
 def _is_raise_escape(st: ast.stmt) -> bool:
     return (isinstance(st, ast.Raise) and isinstance(st.exc, ast.Call) and _dotted(st.exc.func) == 'RootEscapeError')
 
@@ -616,7 +628,7 @@ def _resolve_guard(fn: ast.FunctionDef, helpers: dict | None = None) -> tuple[st
     return g, srcs
 
 
-def _access_sites(cls: ast.ClassDef) -> list[tuple[str, str, int, bool]]:
+def _access_sites(cls: ast.ClassDef, rname: str = '_resolve_path') -> list[tuple[str, str, int, bool]]:
     """Every OS-touching call inside RawFileSystem: (method, callee, line, path argument comes from _resolve_path)."""
     out = []
     for fn in cls.body:
@@ -626,7 +638,7 @@ def _access_sites(cls: ast.ClassDef) -> list[tuple[str, str, int, bool]]:
         for node in ast.walk(fn):
             if isinstance(node, ast.Assign) and len(node.targets) == 1 and isinstance(node.targets[0], ast.Name):
                 v = node.value
-                if isinstance(v, ast.Call) and _dotted(v.func) == 'self._resolve_path':
+                if isinstance(v, ast.Call) and _dotted(v.func) == 'self.' + rname:
                     resolved.add(node.targets[0].id)
         for node in ast.walk(fn):
             if not isinstance(node, ast.Call):
@@ -638,7 +650,7 @@ def _access_sites(cls: ast.ClassDef) -> list[tuple[str, str, int, bool]]:
                 if not node.args:
                     raise TranslateError(f'filesys.py:{node.lineno}: {d} called without positional path')
                 a = node.args[0]
-                ok = (isinstance(a, ast.Call) and _dotted(a.func) == 'self._resolve_path') or \
+                ok = (isinstance(a, ast.Call) and _dotted(a.func) == 'self.' + rname) or \
                      (isinstance(a, ast.Name) and a.id in resolved)
                 out.append((fn.name, d, node.lineno, ok))
             elif d.startswith(('os.', 'shutil.', 'pathlib.', 'io.', 'glob.')) or d in ('Path',):
@@ -672,10 +684,11 @@ def translate() -> tuple[str, dict]:
     if raw is None:
         raise TranslateError('filesys.py: class RawFileSystem not found')
     init = resolve = None
+    rname = resolve_method_name(raw)
     for f in raw.body:
         if isinstance(f, ast.FunctionDef) and f.name == '__init__':
             init = f
-        if isinstance(f, ast.FunctionDef) and f.name == '_resolve_path':
+        if isinstance(f, ast.FunctionDef) and f.name == rname:
             resolve = f
     if init is None or resolve is None:
         raise TranslateError('filesys.py: RawFileSystem.__init__/_resolve_path not found')
@@ -718,7 +731,7 @@ def translate() -> tuple[str, dict]:
             helpers[n.name] = n
         elif isinstance(n, ast.ClassDef) and n.name == 'FileSystem':
             helpers.update({'self.' + f.name: f for f in n.body if isinstance(f, ast.FunctionDef)})
-    helpers.update({'self.' + f.name: f for f in raw.body if isinstance(f, ast.FunctionDef) and f.name != '_resolve_path'})
+    helpers.update({'self.' + f.name: f for f in raw.body if isinstance(f, ast.FunctionDef) and f.name != rname})
     guard, srcs = _resolve_guard(resolve, helpers)
     # the census of access sites is taken from the data-flow interpreter of translate/c18_ops.py (helper methods inlined,
     # locals followed); only if that one cannot read the class the syntactic census below is used
@@ -729,13 +742,13 @@ def translate() -> tuple[str, dict]:
             by_site[(m, c, line)] = by_site.get((m, c, line), True) and pexp.startswith('(PResolve ')
         sites = [(m, c, line, ok) for (m, c, line), ok in by_site.items()]
     except TranslateError:
-        sites = _access_sites(raw)
+        sites = _access_sites(raw, rname)
     if not sites:
         raise TranslateError('filesys.py: RawFileSystem has no recognised file-system access site')
     up = _unify_path_shape(ast.parse(src_text('packlist.py')))
     # anything between a caller of _resolve_path / __init__ and the bodies translated above (seeded c18_4: lru_cache)
-    wrappers = [w for w in wrapper_census(tree) if w[1] in ('_resolve_path', '__init__', '__getattribute__', '__getattr__')
-                and w[0] in ('RawFileSystem', 'FileSystem') or w[2].startswith('subclass') and w[1] == '_resolve_path']
+    wrappers = [w for w in wrapper_census(tree) if w[1] in (rname, '__init__', '__getattribute__', '__getattr__')
+                and w[0] in ('RawFileSystem', 'FileSystem') or w[2].startswith('subclass') and w[1] == rname]
     lines = [
         '(* GENERATED by translate/c18_guard.py from /repo/src/srctools/filesys.py, packlist.py. Do not edit. *)',
         'From Coq Require Import NArith List String.', 'From SV Require Import SM.PathNorm.',
@@ -756,7 +769,7 @@ def translate() -> tuple[str, dict]:
     ]
     side = {'raise_if': guard, 'source_conditions': srcs, 'root_is_abspath': root_abs,
             'access_sites': [list(s) for s in sites], 'unify_path': up, 'resolve_path_wrappers': [list(w) for w in wrappers],
-            'resolve_digest': ast_digest(resolve), 'line': resolve.lineno}
+            'resolve_digest': ast_digest(resolve), 'line': resolve.lineno, 'resolve_method': rname}
     return '\n'.join(lines), side
 
 
